@@ -17,6 +17,11 @@ let step_oracles (bump : str -> unit) (pre : vt) (f : func) (post : vt) : (str *
   chk "C07" "edit" (holds_C07 pre f post);
   chk "C08" "sgr" (holds_C08 pre f post);
   chk "C16" "alt" (holds_C16 pre f post);
+  (* C08: blanks produced by entering the alternate screen carry the current pen (same clause as C16's entry statement) *)
+  (match f with
+   | Decset _ when pre.vterm.active = Primary && post.vterm.active = Alternate ->
+       chk "C08" "alt_entry_blank_pen" (holds_C16 pre f post)
+   | _ -> ());
   chk "C16" "alt_resized" (holds_C16_resized pre f post);
   chk "C17" "saved" (holds_C17 pre f post);
   chk "C18" "tabs" (holds_C18 pre f post);
